@@ -712,7 +712,26 @@ def gen_value_of(rng, t, depth=3):
 def gen_value(rng, depth=3):
     """A random constant-building expression: a random constant type, then a value of it (a static array
     asks for a copyable element type, else the real constructor raises `ValueError`)."""
-    return gen_value_of(rng, gen_vtype(rng, depth), depth)
+    e = gen_value_of(rng, gen_vtype(rng, depth), depth)
+    for _ in range(3):
+        # prefer nested expressions: a flat one (no constant inside another) is resampled most of the time
+        if depth <= 1 or _has_child(e) or rng.random() < 0.35:
+            break
+        e = gen_value_of(rng, gen_vtype(rng, depth), depth)
+    return e
+
+
+def _has_child(e):
+    if not isinstance(e, list):
+        return False
+    k = e[0]
+    if k == "@vsum":
+        return bool(e[3])
+    if k in ("@vtuple", "@some", "@left", "@array", "@list", "@sarray"):
+        return bool(e[1])
+    if k == "@right":
+        return bool(e[2])
+    return False
 
 
 # ----------------------------------------------------------------------------- operations (C06, C05)
